@@ -193,6 +193,18 @@ def _work(pairs):
         except Exception as e:  # noqa: BLE001
             bad("commute-raised", f"{type(e).__name__}: {e}")
             continue
+        if nw[0] == "join":
+            # commute() is public: the partial join exactly as Relation.join builds it (common columns not yet
+            # resolved by _begin_apply) must answer as well, and with the same verdict
+            try:
+                raw = lib_op(ctx, nw).commute(cur)
+                stats["unresolved_join_commutes"] = stats.get("unresolved_join_commutes", 0) + 1
+                if (raw.first is None) != (cm.first is None) or raw.done != cm.done:
+                    bad("commute-depends-on-resolution", f"unresolved partial join reports first={raw.first} done={raw.done}, resolved one first={cm.first} done={cm.done}")
+                    continue
+            except Exception as e:  # noqa: BLE001
+                bad("commute-raised", f"partial join with unresolved common columns: {type(e).__name__}: {e}")
+                continue
         if cm.first is None and not cm.done:
             stats["blocked"] += 1
             if cm.second is not cur.operation:
